@@ -266,7 +266,8 @@ def depth_of(m, d=0):
 # --------------------------------------------------------------------------------------
 # schema generation
 # --------------------------------------------------------------------------------------
-NUMBERS = [1, 2, 15, 16, 17, 2047, 2048, 100000, (1 << 29) - 1]
+# field numbers around every tag-size boundary: (num << 3) crosses 2**7, 2**14, 2**21, 2**28 at 16, 2048, 262144, 33554432
+NUMBERS = [1, 2, 15, 16, 17, 2047, 2048, 100000, 262143, 262144, 33554431, 33554432, (1 << 29) - 1]
 
 
 def matrix_schema():
@@ -353,8 +354,12 @@ def gen_int(pt, rng, in_range=True):
     if r < 0.15:
         return 0
     if r < 0.45:
-        return rng.choice([v for v in [lo, lo + 1, -1, 1, 127, 128, 16383, 16384, hi - 1, hi - 2, (1 << 31) - 1, -(1 << 31), (1 << 32) - 1]
-                           if lo <= v < hi])
+        # range ends and every varint-size boundary 2**(7k) (and its zig-zag pre-image 2**(7k-1)), +-1
+        cands = [lo, lo + 1, -1, 1, hi - 1, hi - 2, (1 << 31) - 1, -(1 << 31), (1 << 32) - 1]
+        for k in range(1, 10):
+            for base in (1 << (7 * k), 1 << (7 * k - 1), -(1 << (7 * k - 1))):
+                cands += [base - 1, base, base + 1]
+        return rng.choice([v for v in cands if lo <= v < hi])
     if r < 0.9 or in_range:
         return rng.randrange(lo, hi) if rng.random() < 0.5 else max(lo, min(hi - 1, rng.randint(-300, 300)))
     return rng.choice([lo - 1, hi, hi + 5, -(1 << 63) - 1, 1 << 64, 1 << 70, -(1 << 70), -5, (1 << 40)])
